@@ -10,13 +10,15 @@ import (
 	psync "github.com/goplus/llgo/runtime/internal/zzstand/psync"
 )
 
-func LoadPointer(p *unsafe.Pointer) unsafe.Pointer     { psync.AtomicPoint(); return sa.LoadPointer(p) }
-func StorePointer(p *unsafe.Pointer, v unsafe.Pointer) { psync.AtomicPoint(); sa.StorePointer(p, v) }
+func LoadPointer(p *unsafe.Pointer) unsafe.Pointer     { psync.AtomicPoint(); defer psync.AtomicPoint(); return sa.LoadPointer(p) }
+func StorePointer(p *unsafe.Pointer, v unsafe.Pointer) { psync.AtomicPoint(); defer psync.AtomicPoint(); sa.StorePointer(p, v) }
 func SwapPointer(p *unsafe.Pointer, v unsafe.Pointer) unsafe.Pointer {
 	psync.AtomicPoint()
+	defer psync.AtomicPoint()
 	return sa.SwapPointer(p, v)
 }
 func CompareAndSwapPointer(p *unsafe.Pointer, o, n unsafe.Pointer) bool {
 	psync.AtomicPoint()
+	defer psync.AtomicPoint()
 	return sa.CompareAndSwapPointer(p, o, n)
 }
